@@ -628,10 +628,35 @@ func c02ErrCloses(c *Ctx) {
 		}
 		isRead := func(in ssa.Instruction) bool { return core.IsCallTo(in, core.Abs("pkg/conn")+".Conn.Read") }
 		nrecv := 0
+		// a helper that hands the request over and returns what it received from the reply channel
+		forwardsReply := func(h *ssa.Function) bool {
+			if h == nil || h.Blocks == nil || core.FuncPkg(h) == nil || core.FuncPkg(h).Path() != core.ModPath {
+				return false
+			}
+			for _, b := range h.Blocks {
+				for _, in := range b.Instrs {
+					if u, ok := in.(*ssa.UnOp); ok && u.Op == token.ARROW && isErrorType(u.Type()) {
+						for _, rt := range core.Returns(h) {
+							for _, res := range rt.Results {
+								if res == ssa.Value(u) {
+									return true
+								}
+							}
+						}
+					}
+				}
+			}
+			return false
+		}
 		for _, b := range fn.Blocks {
 			for _, in := range b.Instrs {
-				u, ok := in.(*ssa.UnOp)
-				if !ok || u.Op != token.ARROW || !isErrorType(u.Type()) {
+				var u ssa.Value
+				if x, ok := in.(*ssa.UnOp); ok && x.Op == token.ARROW && isErrorType(x.Type()) {
+					u = x
+				} else if call, ok := in.(*ssa.Call); ok && isErrorType(call.Type()) && forwardsReply(call.Call.StaticCallee()) {
+					u = call
+				}
+				if u == nil {
 					continue
 				}
 				nrecv++
@@ -659,7 +684,7 @@ func c02ErrCloses(c *Ctx) {
 					retOK = true
 				}
 				// no path from the receive to the next Read that avoids the false edge of the guard
-				leak, path, _ := core.PathAvoidingE(fn, u, isRead, nil, func(a, bb *ssa.BasicBlock) bool {
+				leak, path, _ := core.PathAvoidingE(fn, u.(ssa.Instruction), isRead, nil, func(a, bb *ssa.BasicBlock) bool {
 					return a == guard.Block() && bb == guard.Block().Succs[1]
 				})
 				if !retOK || leak {
